@@ -107,6 +107,9 @@ type Spec struct {
 	// (VDR disabled); in the pipestance under test this directory (e.g. "TOP/SUB") is a
 	// symbolic link to the finished one of the earlier run, as users do to reuse results
 	LinkPrev string `json:"link_prev"`
+	// EarlyDefs: a split job writes its chunk definitions and notifies mrp of them (as the
+	// Go adapter does) one step before it finishes: the run loop may scan and step in between
+	EarlyDefs bool `json:"early_defs"`
 	// RelFiles: top-level output name -> path relative to the working directory mrp is started
 	// in; the file is created there (it is named by an invocation argument that the pipeline
 	// passes through) and must be available under outs/<name> afterwards
@@ -164,6 +167,7 @@ type job struct {
 	ended   bool
 	attempt int
 	inv2    *Inv
+	defs    bool // a split job that has published its chunk definitions and not finished yet
 }
 
 type Driver struct {
@@ -786,6 +790,17 @@ func chunkOutsSame(pred, act interface{}, resolve func(FileRef) string) bool {
 
 // end: the job process finishes.
 func (d *Driver) end(j *job) {
+	if d.spec.EarlyDefs && !j.defs && j.inv != nil && j.inv.Kind == "split" && d.spec.Faults[j.key] == "" {
+		j.defs = true
+		chunks := make([]interface{}, j.inv.NChunks)
+		for i := range chunks {
+			chunks[i] = map[string]interface{}{"ci": i}
+		}
+		b, _ := json.Marshal(map[string]interface{}{"chunks": chunks, "join": map[string]interface{}{}})
+		writeFile(path.Join(j.vj.MetadataPath, "_stage_defs"), b)
+		d.journal(j, "stage_defs")
+		return // the job lives on: its end is another step of the schedule
+	}
 	j.ended = true
 	if d.spec.MaxJobs > 0 {
 		d.mu.Lock()
